@@ -12,3 +12,63 @@ Print Assumptions C04_toggle_involution.
 Theorem C04_flip_involution : forall zt k, flip_side zt (flip_side zt k) = k.
 Proof. exact flip_flip. Qed.
 Print Assumptions C04_flip_involution.
+
+(* ---- the incrementally maintained key equals the key computed from scratch, and is a function of the position ----
+   key_inv s : the piece lists cover the board and all five key components equal (a) their from-scratch values
+               (HashKey::init over the piece lists) and (b) the closed function position_key of the board array, the
+               side to move, the castling mask and the en-passant square.
+   Established by the constructor for every 64-square board, preserved by do_move for every pseudo-legal move of
+   every well-formed state, for every Zobrist table; undo_move restores the earlier key (C03).  *)
+From CV Require Import Engine.RepRefine Engine.RepRefineLegal Engine.RepRoundTrip Engine.KeyScratch Engine.KeyScratchMove Engine.KeyScratchInit Chess.Rules.
+From Coq Require Import List.
+
+Theorem C04_constructor_establishes_key_invariant :
+  forall (zt : zobrist) (p : position), length (brd p) = 64%nat -> key_inv zt (rep_of_position zt p).
+Proof. exact rep_of_position_key_inv. Qed.
+Print Assumptions C04_constructor_establishes_key_invariant.
+
+Theorem C04_do_move_preserves_key_invariant :
+  forall (zt : zobrist) (s : rep) (m : move),
+    rep_ok s -> key_inv zt s -> pseudo_legal (rep_abs s) m = true -> key_inv zt (fst (do_move zt s (enc m))).
+Proof. exact do_move_key_inv. Qed.
+Print Assumptions C04_do_move_preserves_key_invariant.
+
+Theorem C04_incremental_key_equals_scratch_key :
+  forall (zt : zobrist) (s : rep) (m : move),
+    rep_ok s -> key_inv zt s -> pseudo_legal (rep_abs s) m = true ->
+    r_key (fst (do_move zt s (enc m))) = scratch_key zt (fst (do_move zt s (enc m))).
+Proof. exact do_move_key_scratch. Qed.
+Print Assumptions C04_incremental_key_equals_scratch_key.
+
+Theorem C04_key_is_a_function_of_the_position :
+  forall (zt : zobrist) (s : rep), key_inv zt s ->
+    r_key s = position_key zt (r_board s) (r_side s) (r_castling s) (r_ep s).
+Proof. exact key_function_of_position. Qed.
+Print Assumptions C04_key_is_a_function_of_the_position.
+
+(* whichever FENs and move orders: equal placement, side, rights and ep square give equal 64-bit keys and pawn keys *)
+Theorem C04_transpositions_have_equal_keys :
+  forall (zt : zobrist) (p1 p2 : position) (ms1 ms2 : list move),
+    length (brd p1) = 64%nat -> length (brd p2) = 64%nat ->
+    line_ok zt (rep_of_position zt p1) ms1 -> line_ok zt (rep_of_position zt p2) ms2 ->
+    let a := play_rep zt (rep_of_position zt p1) ms1 in let b := play_rep zt (rep_of_position zt p2) ms2 in
+    r_board a = r_board b -> r_side a = r_side b -> r_castling a = r_castling b -> r_ep a = r_ep b ->
+    get_key (r_key a) = get_key (r_key b) /\ k_pawn (r_key a) = k_pawn (r_key b).
+Proof. exact transposition_same_key. Qed.
+Print Assumptions C04_transpositions_have_equal_keys.
+
+Theorem C04_pawn_key_depends_on_pawn_placement_only :
+  forall (zt : zobrist) (b1 b2 : list N),
+    (forall sq, sq < 64 -> pawn_part (nthd b1 sq 0) = pawn_part (nthd b2 sq 0)) -> bkw zt b1 = bkw zt b2.
+Proof. exact pawn_key_depends_on_pawns_only. Qed.
+Print Assumptions C04_pawn_key_depends_on_pawn_placement_only.
+
+(* C04_distinct_positions_distinct_keys_partial: "positions that differ get different keys (up to collision odds)" is a
+   statement about the PRNG and not a theorem; the check counts observed collisions (DESIGN.md). *)
+
+(* non-vacuity: after 1.e4 from the start position the incremental key IS the scratch key and the closed function *)
+Example C04_example :
+  let zt := {| z_piece := fun p s => p * 64 + s + 1; z_castling := fun c => 1000 + c; z_side := 7777; z_ep := fun f => 3000 + f |} in
+  let s := fst (do_move zt (rep_of_position zt initial_position) (enc (Normal 12 28 None))) in
+  r_key s = scratch_key zt s /\ r_key s = position_key zt (r_board s) (r_side s) (r_castling s) (r_ep s) /\ get_key (r_key s) <> 0.
+Proof. vm_compute. repeat split; discriminate. Qed.
